@@ -1,6 +1,9 @@
 (** C14 -- refutations of the full statement on the faithful model, one block per known finding.
     checks/c14.py compiles every block on its own (header + block): a block that no longer compiles means the defect is
-    gone from the model (fixed in the source, the regenerated facts changed) -- reported as such, never as an alarm. *)
+    gone from the model (fixed in the source, the regenerated facts changed) -- reported as such, never as an alarm, and
+    not counted as an obligation.  The blocks of findings listed as "fixed" in findings/C14.known.json (writer mode for
+    paths, stale schema cache, byName uncached / stale) are kept as regression witnesses: they compile again, and the
+    deviation is reported as a VIOLATION, if the fix is ever undone. *)
 From SF Require Import Base.Val C14.Writer C14.WriterProof.
 From Gen Require Import C14Facts.
 Open Scope string_scope.
